@@ -881,6 +881,14 @@ func c07Buckets(c *Ctx) {
 		if i0 == nil || i1 == nil {
 			continue
 		}
+		// both elements are taken from the SAME slice value: index e of a re-slice and index e-1 of the whole list are
+		// not neighbours (seed c07f)
+		sliceOfKeyLoad := func(v ssa.Value) ssa.Value {
+			return unwrap(v).(*ssa.UnOp).X.(*ssa.FieldAddr).X.(*ssa.IndexAddr).X
+		}
+		if s0, s1 := sliceOfKeyLoad(ci.Common().Args[0]), sliceOfKeyLoad(ci.Common().Args[1]); !sameValue(s0, s1) {
+			continue
+		}
 		isPrev := func(a, b ssa.Value) bool { // b == a - 1
 			bo, ok := b.(*ssa.BinOp)
 			if !ok || bo.Op != token.SUB || bo.X != a {
